@@ -215,13 +215,14 @@ def build_ann(s, env, spelling=None, preds=None):
             except TypeError:
                 return typing.Union[tuple(members)]
         if how == "ovld":
-            return T.Union[tuple(_normalize(m, None) for m in members)]
+            return T.Union[tuple(members)]  # members as written, not normalised by the harness
         return typing.Union[tuple(members)]
     if k == "inter":
         # Intersection[...] does not normalise its arguments: nested unions are written with ovld's own Union
         amp = sp.get("inter") == "amp"
         inner_sp = {"union": "ovld", "inter": "amp"} if amp else {"union": "ovld"}
-        members = [_normalize(build_ann(x, env, inner_sp, preds), None) for x in s[1]]
+        # members as a user writes them (typing.Literal[...], dict[str, int], ...): NOT normalised by the harness
+        members = [build_ann(x, env, inner_sp, preds) for x in s[1]]
         if amp:
             # the `A & B` spelling (ovld's types define & / reflected &)
             try:
